@@ -10,6 +10,26 @@ from .facts import DB
 from .report import Ctx
 
 
+def selftest(ctx, pid):
+    """Thorough tier: replay the canned mutations of this property on a scratch copy;
+    each must be reported.  A miss means the checker is weaker than claimed: it is
+    reported as broken machinery for that rule (an obligation of kind selftest)."""
+    from .mutations import MUTATIONS
+    from . import mutate
+    muts = [m for m in MUTATIONS if m["prop"] == pid]
+    if not muts:
+        return
+    base = {pid: [o["key"] for o in ctx.obs if o["status"] == "violated"]}
+    res = mutate.replay(muts, verbose=False, baseline_keys=base)
+    for mid, hit, keys, note in res:
+        if note:
+            ctx.ob("selftest:%s" % mid, "inconclusive", "canned mutation not applicable to this tree: %s" % note, sites=0)
+        elif hit:
+            ctx.held("selftest:%s" % mid, "canned mutation %s is reported (%s)" % (mid, ", ".join(keys[:2])), sites=1)
+        else:
+            ctx.ob("selftest:%s" % mid, "inconclusive", "canned mutation %s was NOT reported by the rule it targets" % mid, sites=1)
+
+
 def main(argv):
     if not argv:
         print("usage: check Cxx [--tier quick|thorough] [--replay path]")
@@ -54,6 +74,8 @@ def main(argv):
             for o in ctx.obs[n0:]:
                 o["key"] = o["key"] + "@rel" if o["status"] != "violated" else o["key"]
             ctx.db = save
+        if tier == "thorough":
+            selftest(ctx, pid)
     except Exception as e:  # machinery failure: no verdict
         import traceback
         traceback.print_exc()
